@@ -29,8 +29,9 @@ RULE = ("Engine K as C12 with consumer scripts biased to stalls (short, long, re
         "the grant (what a FIRST_AVAILABLE fan-in node does to the edges it did not pick; the head then waits unreserved) and "
         "asks again later; the source side may likewise withdraw a granted admission zero to two kernel hops after the grant "
         "(a FIRST_AVAILABLE fan-out node) and ask again later - nothing enters; in a part of those cases a second source process shares "
-        "the belt (own script; admissions are served in request order). Non-trivial: a stall happened while another item was on the belt or an admission request was pending.")
-ASSUMPTIONS = ["unless the case says otherwise (collection time, withdrawn retrieval / admission) the consumer gets and the producer puts at the grant instant",
+        "the belt (own script; admissions are served in request order); in half of the cases the first source holds a granted admission "
+        "for a loading time before it puts the item (one admission at a time; an item put on a stopped belt stays at the entrance). Non-trivial: a stall happened while another item was on the belt or an admission request was pending.")
+ASSUMPTIONS = ["unless the case says otherwise (collection time, loading time, withdrawn retrieval / admission) the consumer gets and the producer puts at the grant instant",
                "times compared with 1e-9 relative tolerance",
                "slotted conveyor = continuous model with item length 1 slot, length capacity slots, speed 1/delay"]
 
